@@ -150,6 +150,18 @@ PROTOTYPES = {
     "mono": ([[3.3, 0, 0], [0, 3.8, 0], [1.1, 0, 4.2]], [[0.1, 0.25, 0.2], [0.9, 0.75, 0.8]], [16, 16]),
 }
 
+# prototypes used only when named explicitly (not part of the default draw, so the default streams are unchanged):
+# several translationally independent atoms of ONE species that no operation relates (P1 with a repeated species, two
+# orbits of one element)
+EXTRA_PROTOTYPES = {
+    "p1_aaa": ([[3.4, 0.3, -0.2], [0.5, 3.9, 0.4], [-0.3, 0.6, 4.3]],
+               [[0.11, 0.23, 0.07], [0.52, 0.61, 0.33], [0.78, 0.18, 0.69]], [14, 14, 14]),
+    "p1_aab": ([[3.6, -0.4, 0.3], [0.2, 3.3, 0.5], [0.4, -0.3, 4.6]],
+               [[0.09, 0.17, 0.21], [0.47, 0.66, 0.58], [0.83, 0.31, 0.84]], [8, 8, 14]),
+    "two_orbits": ([[3.2, 0, 0], [0, 3.7, 0], [0, 0, 4.5]],
+                   [[0.0, 0.0, 0.0], [0.5, 0.5, 0.31]], [13, 13]),
+}
+
 
 @dataclass
 class Crystal:
@@ -263,7 +275,7 @@ def crystal(rng: random.Random, max_N: int = 8, protos=None, allow_random=True, 
             L, B, Z = random_triclinic(rng, nb)
         else:
             name = rng.choice(names)
-            L, B, Z = PROTOTYPES[name]
+            L, B, Z = PROTOTYPES[name] if name in PROTOTYPES else EXTRA_PROTOTYPES[name]
         nb = len(Z)
         max_det = max_N // nb
         if max_det < min_nlp:
